@@ -319,17 +319,22 @@ PROPS = {
             'exactly that table and hold nothing afterwards, in reverse order, for any number of redirections including several of the '
             'same descriptor; preserve_redirs (exec) keeps the redirected descriptors and closes every backing copy; the run-time '
             'assertions of the code (assert_eq!/assert_ne!) cannot fail. Restoration clauses are stated under the hypothesis that close '
-            'and dup2 of valid descriptors do not fail (the code ignores those errors). NOT decided: what each operator opens '
-            '(open_normal, open_file_noclobber, copy_fd, here-documents: ASSUMED to open at most one new descriptor and nothing on '
-            'failure), expansion of the operand (assumed not to touch the table), which callers keep the guard alive for how long '
+            'and dup2 of valid descriptors do not fail (the code ignores those errors). The openers are under contract too: open_normal '
+            'opens each file operator with the access mode and flags of XCU 2.7 (< read-only; > and >| write-only, create, truncate; >> '
+            'write-only, create, append; <> read-write, create), > under noclobber (open_file_noclobber) never truncates and hands out only '
+            'a file this very open created (O_CREAT|O_EXCL) or a non-regular file, closing what it opened when it refuses; <& and >& '
+            '(copy_fd) only ever name an open descriptor of the right access mode that is not close-on-exec, or close the target for "-"; '
+            'pipe and here-string operators are errors; here_doc::open_fd closes its temporary file when filling it fails; every opener '
+            'opens at most one descriptor and leaves nothing behind on failure. NOT decided: expansion of the operand and the writing of the '
+            'here-document body (assumed not to touch the table), which callers keep the guard alive for how long '
             '(async interpreter code), move_fd_internal, and the simulated system itself.'),
         'trusted_base': ['Verus 0.2026.09.13 + Z3', '/verif/tools/vextract.py'],
         'assumptions': [
             'the system traits Close / Dup / Fcntl are replaced by one synchronous model trait over a ghost descriptor table (fd -> open file description, close-on-exec); dup returns a descriptor that was not open, >= its minimum, EBADF exactly for a closed source; dup2 clears close-on-exec; close of a closed descriptor succeeds (as the trait documents); failures of close/dup2 on valid descriptors are a function of the state and excluded by hypothesis in the restoration clauses',
-            'expand_word / expand_text / open_normal / here_doc::open_fd / trace_* are external_body with assumed contracts: expansion leaves the table alone; opening yields one descriptor that was not open (Owned), an open one without close-on-exec (Borrowed), or nothing (Closed / error)',
+            'expand_word / expand_text / fill_content / trace_* are external_body with assumed contracts: they leave the descriptor table alone; open() of the model yields a descriptor that was not open, for a NEW open file description that remembers its access mode and flags; fstat answers for the file behind the description; CString::new, the parsing of the <& operand and Path::new are opaque helpers; Result::is_ok_and has an assumed contract; `enum_set!(A | B)` is checked as `A | B`',
             'await points are dropped (strip-async): nothing else runs in between',
             'Env reduced to the system field; RedirGuard passes itself where &mut Env is expected (DerefMut): checked as `self.env`; `for x in v.drain(..).rev()` is checked as `while let Some(x) = v.pop()`, `for x in v.drain(..)` through a helper with an assumed contract; Drop::drop is checked as an inherent method with the same body',
-            'Location, Word, Text, HereDoc, Field, XTrace, expansion errors, CString, NulError, ParseIntError are opaque placeholders; EnumSet<FdFlag> is a one-flag model; Errno::EBADF = 9',
+            'Location, Word, Text, HereDoc, Field, XTrace, expansion errors, CString, NulError, ParseIntError are opaque placeholders; EnumSet<T> is a ghost set of flags with assumed contracts for empty / | / into / contains; Mode, the option set (one option) and file status (one bit) are reduced models; Errno::EBADF = 9, EEXIST = 17, ENOENT = 2',
         ],
     },
     'C10': {
